@@ -37,7 +37,7 @@ def _exc(e):
 
 
 def budget(tier):
-    return {"examples": 2000 if tier == "quick" else 25000, "shards": 16, "shrink": 300 if tier == "quick" else 1500}
+    return {"examples": 6000 if tier == "quick" else 60000, "shards": 16, "shrink": 300 if tier == "quick" else 1500}
 
 
 def strategy(tier):
